@@ -3,6 +3,7 @@ package rules
 import (
 	"fmt"
 	"go/token"
+	"go/types"
 	"strings"
 
 	"golang.org/x/tools/go/ssa"
@@ -154,4 +155,146 @@ func checkLockPairs(c *core.Ctx, rule, sharedG, exclG string) {
 	if n == 0 {
 		c.Undecided(rule, "orcas#bucket-pair", "-", "no stores into the lock tables found")
 	}
+}
+
+// checkConstructorsAlwaysWrap (R3.7): the lock constructors wrap on every path. Every return of Locked and
+// LockedWithExisting hands back a constructor closure that builds the locking wrapper around the given orchestrator;
+// none hands the given constructor back unwrapped (an id that "means no locking" leaves one port without locks while the
+// other port still takes them: commands on the two ports no longer exclude each other).
+func checkConstructorsAlwaysWrap(c *core.Ctx, rule string, wrapper *types.Named) {
+	for _, cn := range []string{"Locked", "LockedWithExisting"} {
+		fn := c.P.Func("orcas", cn)
+		key := "orcas." + cn + "#always-wraps"
+		if fn == nil {
+			c.Undecided(rule, key, "-", "constructor not found")
+			continue
+		}
+		var bad []string
+		n := 0
+		for _, r := range ssax.Returns(fn) {
+			if len(r.Results) == 0 {
+				continue
+			}
+			n++
+			for _, d := range ssax.Defs(r.Results[0]) {
+				d = ssax.Unwrap(d)
+				if ct, ok := d.(*ssa.ChangeType); ok {
+					d = ssax.Unwrap(ct.X)
+				}
+				mc, ok := d.(*ssa.MakeClosure)
+				if !ok {
+					// tolerated only on a path taken for an id value the id generator never hands out
+					if k, guarded := equalsConstGuard(r.Block(), fn); guarded {
+						if min, known := minLockSetID(c); known && k < min {
+							continue
+						}
+					}
+					bad = append(bad, fmt.Sprintf("the return at %s hands back %s, not a constructor built here", c.P.Pos(r.Pos()), d.String()))
+					continue
+				}
+				builds := false
+				ssax.Instrs(mc.Fn.(*ssa.Function), func(ins ssa.Instruction) {
+					if al, ok := ins.(*ssa.Alloc); ok && namedOf(al.Type()) == wrapper {
+						builds = true
+					}
+				})
+				if !builds {
+					bad = append(bad, fmt.Sprintf("the constructor returned at %s does not build the locking wrapper", c.P.Pos(r.Pos())))
+				}
+			}
+		}
+		if n == 0 {
+			c.Undecided(rule, key, c.P.Pos(fn.Pos()), "no return found")
+			continue
+		}
+		c.Check(len(bad) == 0, rule, key, c.P.Pos(fn.Pos()), "every return hands back a constructor that builds the locking wrapper",
+			strings.Join(bad, "; ")+": on that path the port runs without key locks while the other port still takes them")
+	}
+}
+
+// equalsConstGuard: block b is dominated by the true side of (integer parameter of fn == constant).
+func equalsConstGuard(b *ssa.BasicBlock, fn *ssa.Function) (int64, bool) {
+	for _, ec := range ssax.DomConds(b) {
+		bo, ok := ec.Cond.(*ssa.BinOp)
+		if !ok || !((bo.Op == token.EQL && ec.True) || (bo.Op == token.NEQ && !ec.True)) {
+			continue
+		}
+		for _, pair := range [][2]ssa.Value{{bo.X, bo.Y}, {bo.Y, bo.X}} {
+			isParam := false
+			for _, d := range ssax.Defs(pair[0]) {
+				if _, isP := ssax.Unwrap(d).(*ssa.Parameter); isP {
+					isParam = true
+				}
+			}
+			if isParam {
+				if k, ok := ssax.ConstInt(pair[1]); ok {
+					return k, true
+				}
+			}
+		}
+	}
+	return 0, false
+}
+
+// minLockSetID: the smallest id the lock-set allocator can return: it returns atomic.AddUint32(&counter, 1) plus a
+// constant, where counter is a package-level variable nothing else writes (so it starts at 0).
+func minLockSetID(c *core.Ctx) (int64, bool) {
+	for _, fn := range pkgFuncs(c, "orcas") {
+		res := fn.Signature.Results()
+		if res.Len() != 1 || types.TypeString(res.At(0).Type(), nil) != "uint32" {
+			continue
+		}
+		min, known := int64(0), false
+		ok := true
+		for _, r := range ssax.Returns(fn) {
+			for _, d := range ssax.Defs(r.Results[0]) {
+				adj := int64(0)
+				v := ssax.Unwrap(d)
+				for {
+					bo, isBO := v.(*ssa.BinOp)
+					if !isBO {
+						break
+					}
+					k, isK := ssax.ConstInt(bo.Y)
+					if !isK {
+						break
+					}
+					if bo.Op == token.ADD {
+						adj += k
+					} else if bo.Op == token.SUB {
+						adj -= k
+					} else {
+						break
+					}
+					v = ssax.Unwrap(bo.X)
+				}
+				call, isCall := v.(*ssa.Call)
+				if !isCall || ssax.CalleeName(&call.Call) != "sync/atomic.AddUint32" {
+					ok = false
+					continue
+				}
+				g, isG := call.Call.Args[0].(*ssa.Global)
+				inc, isK := ssax.ConstInt(call.Call.Args[1])
+				if !isG || !isK || inc < 1 {
+					ok = false
+					continue
+				}
+				// nothing else writes the counter
+				for _, f2 := range pkgFuncs(c, "orcas") {
+					ssax.Instrs(f2, func(ins ssa.Instruction) {
+						if st, isSt := ins.(*ssa.Store); isSt && st.Addr == ssa.Value(g) {
+							ok = false
+						}
+					})
+				}
+				if !known || inc+adj < min {
+					min, known = inc+adj, true
+				}
+			}
+		}
+		if ok && known {
+			return min, true
+		}
+	}
+	return 0, false
 }
